@@ -432,7 +432,7 @@ PROPS["C07"] = {"gen": c07, "validate_quick": 8,
     "assumptions": ["pre-state satisfies the class's representation invariant"]}
 
 
-ITER_Q = {0: "vertices", 1: "traversal", 2: "repeat", 3: "begin", 4: "step"}
+ITER_Q = {0: "vertices", 1: "traversal", 2: "repeat", 3: "begin", 4: "step", 5: "traverse-insert-traverse"}
 
 
 def iter_ob(und, n, q, DUP=1, **kw):
@@ -462,6 +462,13 @@ def c08(tier):
             obs.append(iter_ob(und, 2, q, DUP=2, optional_reach=[""]))
             if tier == "thorough":
                 obs.append(iter_ob(und, 3, q, DUP=2))
+        # traversal - insertion - traversal on each class family (labelled, multigraph, weighted)
+        for cls in (0, 1, 2):
+            n = (2 if tier == "quick" else 3) if not und else (1 if tier == "quick" else 2)
+            ob = iter_ob(und, n, 5, optional_reach=[""], mem_gb=12, timeout=300 if tier == "quick" else 3400)
+            ob["defs"]["CLS"] = cls
+            ob["id"] += "-" + ("labelled", "multigraph", "weighted")[cls]
+            obs.append(ob)
     return obs
 
 
@@ -543,8 +550,12 @@ def c10(tier):
                             defs["SEQ%d" % c] = sq[c] if c < len(sq) else 0
                     if n >= 4 or (sq is not None and len(sq) >= 3):
                         kw.update(timeout=3000, mem_gb=12)
-                    obs.append(dict({"id": "C10/%s/%s/n%d%s" % ("und" if und else "dir", "getSubgraphWithRemap" if q else "getSubgraph", n, "" if sq is None else "-S" + "".join(map(str, sq)) if sq else "-Sempty"),
-                                     "src": "subgraph.cpp", "defs": defs, "bounds": graph_bounds(defs)}, **kw))
+                    ob = dict({"id": "C10/%s/%s/n%d%s" % ("und" if und else "dir", "getSubgraphWithRemap" if q else "getSubgraph", n, "" if sq is None else "-S" + "".join(map(str, sq)) if sq else "-Sempty"),
+                               "src": "subgraph.cpp", "defs": defs, "bounds": graph_bounds(defs)}, **kw)
+                    obs.append(ob)
+                    if sq is not None and n == 2 and len(sq) == 1:
+                        d2 = dict(defs); d2["PRE_REJECT"] = None
+                        obs.append(dict(ob, id=ob["id"] + "-after-rejected-request", defs=d2))
     return obs
 
 
@@ -801,9 +812,9 @@ def c13(tier):
         for lab in (0, 1):
             obs.append(txt_ob("C13", 1, und=und, lab=lab, lines=2 if tier == "quick" else 3, timeout=300 if tier == "quick" else 3400, mem_gb=8 if tier == "quick" else 16))
             if not und or tier == "thorough":
-                obs.append(txt_ob("C13", 3, und=und, lab=lab, n=3 if not und else 2, emaxw=2, **({"mem_gb": 14, "timeout": 1800} if und else {})))
+                obs.append(txt_ob("C13", 3, und=und, lab=lab, n=3 if not und else 2, emaxw=2, **({"mem_gb": 14, "timeout": 3000} if und else {})))
             else:
-                obs.append(txt_ob("C13", 3, und=und, lab=lab, n=2, emaxw=1, mem_gb=8))
+                obs.append(txt_ob("C13", 3, und=und, lab=lab, n=1, emaxw=1, mem_gb=8))     # undirected writer on 2 vertices: thorough tier
         obs.append(txt_ob("C13", 2, und=und, lab=0, lines=2 if tier == "quick" else 3, timeout=300 if tier == "quick" else 3400, mem_gb=8 if tier == "quick" else 16))
     return obs
 
